@@ -260,14 +260,14 @@ def rows_deser(d, rng):
     for (fmt, pos, raw) in raw_docs(d):
         ins.append({"fmt": fmt, "pos": pos, "raw": raw})
     # grammar-based random JSON documents and random MessagePack byte strings (differential: reference vs newtype)
-    for _ in range(60 if q else 2000):
+    for _ in range(60 if q else 300):
         # a random VALUE in the payload position of a single-element container (one payload per document: the
         # judgement compares it with what the inner type makes of the same payload)
         t = random_json(rng)
         pos = rng.choice(["top", "vec", "field", "mapval"])
         text = {"top": t, "vec": "[%s]" % t, "field": "{\"a\":7,\"f\":%s}" % t, "mapval": "{\"k\":%s}" % t}[pos]
         ins.append({"fmt": "json_reader" if pos == "mapval" else rng.choice(["json", "json_reader"]), "pos": pos, "raw": {"text": text}})
-    for _ in range(40 if q else 1000):
+    for _ in range(40 if q else 150):
         hx = "".join("%02x" % rng.choice([rng.randrange(256), 0x91, 0xa1, 0xc0, 0xca, 0xcb, 0xcc, 0xd0, 0x05, 0x81]) for _ in range(rng.randint(1, 10)))
         pos = rng.choice(["top", "vec"])
         ins.append({"fmt": "msgpack" if pos == "vec" else rng.choice(["msgpack", "msgpack_read"]), "pos": pos, "raw": {"hex": ("91" + hx) if pos == "vec" else hx}})
